@@ -29,7 +29,7 @@ def cfg(spec, srcs, opts, n, view=True, inv=False):
                        inv=INV if inv else "", w="MCW" if srcs == "MCSrcsSmall" else "MCWFull")
 
 
-def run_harness(ctx, cases, what, env=None, timeout=900):
+def run_harness(ctx, cases, what, env=None, timeout=2400):
     e = {"VERIF_IN": cases}
     if env:
         e.update(env)
@@ -68,7 +68,7 @@ def run(ctx):
         ctx.cover("gen3", states=g3.distinct, transitions=g3.generated)
     depth = ctx.pick(7, 10)
     sim = ctx.tlc("RouteLang_MC", cfg_text=cfg("GenSpec", "MCSrcsFull", "MCOptsFull", depth, view=False),
-                  simulate=ctx.pick(3000, 40000), depth=depth + 1, seed=ctx.seed, json_sink=cases, timeout=900)
+                  simulate=ctx.pick(3000, 20000), depth=depth + 1, seed=ctx.seed, json_sink=cases, timeout=900)
     ctx.log("Sim(depth %d): %d states, %.0fs" % (depth, sim.generated, sim.wall))
     if sim.error or sim.violated:
         ctx.need_tlc_ok(sim, "RouteLang simulation")
